@@ -37,4 +37,13 @@ theorem pool_discipline :
     poolUse = [("Encode", 1, 1, 1), ("EncodeToBytes", 1, 1, 1), ("EncodeToReader", 1, 0, 0), ("encReader.Read", 0, 1, 0)] := by
   decide
 
+/-- The package imports the standard library only: no node configuration, no proposal/fork flag, no
+    clock can influence coding (hardening class 5: nothing fork-dependent on this path). -/
+theorem imports_stdlib_only : imports.all (fun p => !hasChar '.' p.2) = true := by decide
+
+/-- The only package-level variable written after initialisation is the type cache, and only by
+    `cachedTypeInfo1` (the pool is used through `Get`/`Put`, see `pool_discipline`): every other
+    function on the coding path is free of process-local history. -/
+theorem package_state_writes : pkgWrites = [("cachedTypeInfo1", "typeCache")] := by decide
+
 end Rangers.Props.C08
